@@ -56,6 +56,7 @@ type res struct {
 }
 
 const notInt = -777777 // projection of an element that is not an int (never produced by the spec)
+const readPanicked = -888888
 
 func elem(x any) int {
 	if n, ok := x.(int); ok {
@@ -101,7 +102,12 @@ func (b *rleBuilder) add(x int) {
 }
 
 // byIndex reads v with Index at every position 0..Len-1 (content as maximal runs).
-func byIndex(v vector.Vector) []rn {
+func byIndex(v vector.Vector) (out []rn) {
+	defer func() { // a panic while reading is projected to a content no specification prescribes
+		if r := recover(); r != nil {
+			out = []rn{{readPanicked, 1}}
+		}
+	}()
 	b := rleBuilder{out: []rn{}}
 	n := v.Len()
 	for i := 0; i < n; i++ {
@@ -116,7 +122,12 @@ func byIndex(v vector.Vector) []rn {
 }
 
 // byIter reads v with its Iterator (bounded, so a runaway iterator cannot hang the check).
-func byIter(v vector.Vector) []rn {
+func byIter(v vector.Vector) (out []rn) {
+	defer func() {
+		if r := recover(); r != nil {
+			out = []rn{{readPanicked, 1}}
+		}
+	}()
 	b := rleBuilder{out: []rn{}}
 	limit := v.Len() + 8
 	k := 0
@@ -208,7 +219,12 @@ func exec(recv vector.Vector, o op) (out outcome) {
 
 // sameContent compares a real vector with a content prescribed as runs, reading the vector in
 // full with Len, Index at every position (and just outside), and the Iterator.
-func sameContent(v vector.Vector, want []rn) string {
+func sameContent(v vector.Vector, want []rn) (diff string) {
+	defer func() {
+		if r := recover(); r != nil {
+			diff = fmt.Sprintf("reading the vector panicked: %v", r)
+		}
+	}()
 	n := 0
 	for _, r := range want {
 		n += r.N
@@ -253,15 +269,43 @@ func equalRuns(a, b []rn) bool {
 }
 
 // prefill returns the real vectors of length 0..n holding K+1..K+len, built by Conj.
-func prefill(n int) []vector.Vector {
-	out := make([]vector.Vector, n+1)
+// A panic of the real code while building is returned as text (the caller rejects it).
+func prefill(n int) (out []vector.Vector, panicked string) {
+	out = make([]vector.Vector, n+1)
+	defer func() {
+		if r := recover(); r != nil {
+			panicked = fmt.Sprintf("Conj while building a vector of length %d panicked: %v", n, r)
+		}
+	}()
 	v := vector.Empty
 	out[0] = v
 	for i := 1; i <= n; i++ {
 		v = v.Conj(K + i)
+		if v == nil {
+			return out, fmt.Sprintf("Conj on a vector of length %d returned nil", i-1)
+		}
 		out[i] = v
 	}
-	return out
+	return out, ""
+}
+
+// popDown returns down[n] = top popped down to length n, for n = 0..Len(top).
+func popDown(top vector.Vector) (down []vector.Vector, panicked string) {
+	L := top.Len()
+	down = make([]vector.Vector, L+1)
+	defer func() {
+		if r := recover(); r != nil {
+			panicked = fmt.Sprintf("Pop while building the vectors below length %d panicked: %v", L, r)
+		}
+	}()
+	down[L] = top
+	for n := L - 1; n >= 0; n-- {
+		down[n] = down[n+1].Pop()
+		if down[n] == nil {
+			return down, fmt.Sprintf("Pop of a vector of length %d returned nil", n+1)
+		}
+	}
+	return down, ""
 }
 
 // shape names the structural situation of a whole vector of length n in the documented layout
